@@ -32,11 +32,30 @@ theorem end_only_when_gone (ops : List HubOp) :
     ∀ c ∈ (HubSt.reach M tokP tokS cfg kind size cap ops).conns, c.shutdownOpen = true → c.done = true :=
   Mercure.reach_shutdownOpen_done M tokP tokS cfg kind size cap ops
 
-/-- Nothing is announced for a request that was not accepted. -/
+/-- Nothing is announced for a request that was refused: every event belongs to an accepted
+    connection or to a registration that failed half-way. -/
 theorem events_only_for_accepted (ops : List HubOp) :
     ∀ e ∈ (HubSt.reach M tokP tokS cfg kind size cap ops).events,
-      ∃ c ∈ (HubSt.reach M tokP tokS cfg kind size cap ops).conns, c.label = e.1 :=
+      (∃ c ∈ (HubSt.reach M tokP tokS cfg kind size cap ops).conns, c.label = e.1) ∨
+      (∃ f ∈ (HubSt.reach M tokP tokS cfg kind size cap ops).failed, f.1 = e.1) :=
   Mercure.reach_events_labels M tokP tokS cfg kind size cap ops
+
+/-- **Also when registration fails half-way**: a registration whose `AddSubscriber` failed while the
+    hub was open was announced exactly once per selector with active=true and exactly once with
+    active=false, in selector order (nothing at all when the hub was closed: nobody is left to tell). -/
+theorem failed_registration_announced_once (ops : List HubOp) (hf : FreshLabels ops) (h : cfg.subscriptions = true) :
+    ∀ f ∈ (HubSt.reach M tokP tokS cfg kind size cap ops).failed,
+      evs (HubSt.reach M tokP tokS cfg kind size cap ops) f.1 true = (if f.2.2 then f.2.1 else []) ∧
+      evs (HubSt.reach M tokP tokS cfg kind size cap ops) f.1 false = (if f.2.2 then f.2.1 else []) :=
+  Mercure.reach_failed_events M tokP tokS cfg kind size cap ops hf h
+
+/-- A failed registration leaves nothing behind: it is not a connection, it is not in the
+    transport's subscriber list (so the subscription API does not list it), and the gauge did not move. -/
+theorem failed_registration_leaves_nothing (ops : List HubOp) (hf : FreshLabels ops) :
+    ∀ f ∈ (HubSt.reach M tokP tokS cfg kind size cap ops).failed,
+      f.1 ∉ (HubSt.reach M tokP tokS cfg kind size cap ops).index ∧
+      ∀ c ∈ (HubSt.reach M tokP tokS cfg kind size cap ops).conns, c.label ≠ f.1 :=
+  Mercure.reach_failed_not_indexed M tokP tokS cfg kind size cap ops hf
 
 /-- Shape: one private update whose only topic is the subscription id
     `/.well-known/mercure/subscriptions/` ++ esc selector ++ `/` ++ esc subscriber. -/
@@ -77,3 +96,5 @@ end Mercure.C17
 #print axioms Mercure.C17.id_is_percent_encoded
 #print axioms Mercure.C17.repo_escapes_space_as_pct20
 #print axioms Mercure.C17.C17_counterexample_space_plus
+#print axioms Mercure.C17.failed_registration_announced_once
+#print axioms Mercure.C17.failed_registration_leaves_nothing
